@@ -1,10 +1,13 @@
 #!/usr/bin/env python3
-"""seed_matrix_par.py [seed ...] — the full seed x check matrix on scratch copies of /repo (which stays untouched).
+"""seed_matrix_par.py [seed ...] — (MATRIX_CHECKS=C14,C16 restricts the columns) the full seed x check matrix on scratch copies of /repo (which stays untouched).
 One scratch copy per seed (mktemp, removed afterwards), every claimed check run on it with --no-write, 14 jobs at a time.
 Writes seeded/MATRIX.json: {seed: {check: {"exit": rc, "first": [first report lines]}}} for the checks that do not exit 0."""
 import json, os, subprocess, sys, tempfile, shutil, concurrent.futures as cf
 ROOT = "/verif"
 checks = [c["property_id"] for c in json.load(open(os.path.join(ROOT, "MANIFEST.json")))["checks"]]
+ONLY = [c for c in os.environ.get("MATRIX_CHECKS", "").split(",") if c]       # e.g. MATRIX_CHECKS=C14,C16: re-run these columns only
+if ONLY:
+    checks = [c for c in checks if c in ONLY]
 seeds = sys.argv[1:] or sorted(d for d in os.listdir(os.path.join(ROOT, "seeded")) if os.path.isdir(os.path.join(ROOT, "seeded", d)))
 copies = {}
 try:
@@ -35,7 +38,12 @@ finally:
     for t in copies.values():
         shutil.rmtree(t, ignore_errors=True)
 mp = os.path.join(ROOT, "seeded", "MATRIX.json")
-old = json.load(open(mp)) if os.path.exists(mp) and sys.argv[1:] else {}
+old = json.load(open(mp)) if os.path.exists(mp) and (sys.argv[1:] or ONLY) else {}
+if ONLY:
+    for sd, row in out.items():                 # replace only the re-run columns of each row
+        merged = {c: v for c, v in old.get(sd, {}).items() if c not in ONLY}
+        merged.update(row)
+        out[sd] = merged
 old.update(out)
 json.dump(old, open(mp, "w"), indent=1, sort_keys=True)
 missed = [s for s in sorted(out) if not any(v["exit"] == 1 for v in out[s].values())]
